@@ -134,8 +134,10 @@ func (c *cluster) onWireMsg(m *streamMon, w *wireMsg) {
 		if !rq.transfer && c.deliveryStep && !c.blackbox && dst.sh != nil && dst.r != nil {
 			if l0 := dst.sh.leader; l0 != 0 && l0 != rq.src && l0 != dst.id && dst.r.leader == l0 && dst.sh.state == Follower {
 				c.stats.class("stability-judged")
-				first := c.respInStep[dst.id] == 0 // nothing else was answered by this node in this step
-				if res != leaderKnown || (first && w.resp.getTerm() != dst.sh.term) {
+				// (the term is judged by the function-level stability property, see votefn.go:
+				// replies of one node are written by one goroutine per connection, so the
+				// write order of a step says nothing about the order of processing)
+				if res != leaderKnown {
 					c.fail("stability", "disruptive-vote-request-honoured", "follower %d (term %d, following leader %d) answered a vote request without transfer permission from node %d (term %d) with %s and term %d", dst.id, dst.sh.term, l0, rq.src, rq.term, resultName(res), w.resp.getTerm())
 				}
 			}
